@@ -1,6 +1,6 @@
 INIT Init
 NEXT Next
-INVARIANTS Emit Identities
+INVARIANTS Emit
 CHECK_DEADLOCK FALSE
 CONSTANTS
   PlanName = "refs"
